@@ -114,6 +114,7 @@ type World struct {
 	forcedUsed        int
 	hdrSeen           map[string]string // raw values of LS-written DBIs at the last application commit / LS transaction
 	straddleKey       string
+	straddleCommitted bool
 	emptyLoad         bool
 	visits            map[string]int
 	idle              int
@@ -470,7 +471,13 @@ func (w *World) checkC14(at string) {
 		}
 	}
 	w.hdrSeen = cur
-	w.straddleKey = ""
+	// the straddling transaction's own write stays excluded until the check that follows its commit (a straddle opened
+	// before a read-only dump commits only at the next write transaction of the loop)
+	// (w.mu is held by the caller)
+	if w.straddleCommitted {
+		w.straddleKey = ""
+		w.straddleCommitted = false
+	}
 }
 
 // checkC03: whatever the application committed is still there.
@@ -1276,6 +1283,7 @@ func (w *World) startStraddle(op string) {
 		})
 		w.mu.Lock()
 		w.touched[key] = ver
+		w.straddleCommitted = true
 		w.appTxns = append(w.appTxns, appTxnID)
 		w.commits++
 		w.commitAt = append(w.commitAt, at)
